@@ -6,10 +6,35 @@
    spec/wire/MalformedH2.tla (+Trace): HTTP/2 frame shapes (length vs payload, padding, CONTINUATION sequences) and
      HPACK blocks through the real MFramer.ReadFrame / hpack.Decoder.
    spec/server/Containment.tla (+Trace): N connections, one poisoned, on a real MOSN in the driver process."""
-import json, os, re
+import json, os, re, threading
+from concurrent.futures import ThreadPoolExecutor
 import vlib
 
 LEVEL = "model_checking"
+
+# The three parts run side by side. A part holds LOCK whenever it touches ctx and gives it up while it waits for TLC or a driver.
+LOCK = threading.RLock()
+
+
+def blocking(fn, *a, **k):
+    LOCK.release()
+    try:
+        return fn(*a, **k)
+    finally:
+        LOCK.acquire()
+
+
+def run_tlc(*a, **k):
+    return blocking(vlib.run_tlc, *a, **k)
+
+
+def run_driver(*a, **k):
+    return blocking(vlib.run_driver, *a, **k)
+
+
+def validate_trace(*a, **k):
+    return blocking(vlib.validate_trace, *a, **k)
+
 
 MM = re.compile(r'"MISMATCH",\s*(\d+),\s*"([^"]+)"')
 
@@ -27,7 +52,7 @@ def run_restartable(ctx, binary, mode, cases, trace, extra, timeout=900):
     start = 0
     for attempt in range(12):
         part = "%s.part%d" % (trace, attempt)
-        logp = vlib.run_driver(ctx, binary, ["-mode", mode, "-cases", cases, "-trace", part, "-from", str(start)] + extra,
+        logp = run_driver(ctx, binary, ["-mode", mode, "-cases", cases, "-trace", part, "-from", str(start)] + extra,
                                timeout=timeout, ok_codes=(0, 7))
         parts.append(part)
         m = re.search(r"LOOP at case (\d+)", open(logp, errors="replace").read())
@@ -47,7 +72,7 @@ def validate(ctx, family, module, trace, part, sig_of, count_ev):
     evs = vlib.read_jsonl(trace)
     if not evs:
         raise vlib.Inconclusive("driver produced no events for " + part)
-    v = vlib.validate_trace(ctx, family, module, module + ".cfg", trace, timeout=2400)
+    v = validate_trace(ctx, family, module, module + ".cfg", trace, timeout=2400)
     ctx.cov["states"] += v["distinct"]
     ctx.cov["transitions"] += v["generated"]
     ctx.cov.setdefault("trace_events", {})[part] = len(evs)
@@ -82,6 +107,10 @@ H2T = {0: "DATA", 1: "HEADERS", 2: "PRIORITY", 3: "RST_STREAM", 4: "SETTINGS", 6
 def h2_sig(e, kind):
     if e["ev"] == "randh2":
         return "C08:randh2:%s:%s" % (e.get("target"), kind)
+    if e["ev"] == "hpint":
+        return "C08:hpint:%s:%s:%s" % (e.get("target"), e.get("field"), kind)
+    if e["ev"] == "fval":
+        return "C08:fval:%s:%s:%s" % (H2T.get(e.get("t"), e.get("t")), e.get("vname"), kind)
     if e["ev"] == "hpack":
         return "C08:hpack:%s:%s" % ("+".join(e.get("reps", [])), kind)
     shape = "+".join(H2T.get(f["t"], str(f["t"])) for f in e.get("frames", []))
@@ -91,21 +120,20 @@ def h2_sig(e, kind):
 def run(ctx):
     q = ctx.quick()
     only = os.environ.get("C08_PARTS", "xdec,h2,e2e").split(",")
-    binary = None
+    binary = vlib.go_build("c08")
 
     # ------------------------------------------------------------------ part 1: xprotocol decoders and matchers
-    if "xdec" in only:
+    def part_xdec():
         cases = os.path.join(ctx.tmp, "xcases.jsonl")
-        r = vlib.run_tlc(ctx, "wire", "Malformed", "Malformed.cfg" if q else "Malformed_thorough.cfg", workers=1, cases_to=cases, timeout=1500)
+        r = run_tlc(ctx, "wire", "Malformed", "Malformed.cfg" if q else "Malformed_thorough.cfg", workers=1, cases_to=cases, timeout=1500)
         ctx.add_tlc(r)
         for d in ("AllocBeforeComplete", "NoCompleteCheck", "CompleteIgnoresBias", "UncheckedKvLen"):
-            if vlib.run_tlc(ctx, "wire", "Malformed", "Malformed_defect_%s.cfg" % d, expect_ok=False)["ok"]:
+            if run_tlc(ctx, "wire", "Malformed", "Malformed_defect_%s.cfg" % d, expect_ok=False)["ok"]:
                 raise vlib.Inconclusive("Malformed model does not reject defect " + d)
-        # 2^32-1 goes last: a decoder seen to allocate from a 16 MiB length is not given 4 GiB
+        # lengths of 2 GiB and more go last: a decoder seen to allocate from a 16 MiB length is not given them
         lines = open(cases).read().splitlines()
-        lines.sort(key=lambda ln: '"mut":"max"' in ln)
+        lines.sort(key=lambda ln: '"val":2000000000' in ln)
         open(cases, "w").write("\n".join(lines) + "\n")
-        binary = binary or vlib.go_build("c08")
         trace = os.path.join(ctx.tmp, "xdec.ndjson")
         run_restartable(ctx, binary, "xdec", cases, trace, ["-rand", "3000" if q else "100000"], timeout=1500)
         evs = validate(ctx, "wire", "MalformedTrace", trace, "xdec", xdec_sig, ("xdec",))
@@ -117,34 +145,34 @@ def run(ctx):
         ctx.sample({"part": "rand", "event": next((e for e in evs if e["ev"] == "rand"), None)})
 
     # ------------------------------------------------------------------ part 2: HTTP/2 framer and HPACK decoder
-    if "h2" in only:
+    def part_h2():
         cases = os.path.join(ctx.tmp, "h2cases.jsonl")
-        r = vlib.run_tlc(ctx, "wire", "MalformedH2", "MalformedH2.cfg" if q else "MalformedH2_thorough.cfg", workers=1, cases_to=cases, timeout=1500)
+        r = run_tlc(ctx, "wire", "MalformedH2", "MalformedH2.cfg" if q else "MalformedH2_thorough.cfg", workers=1, cases_to=cases, timeout=1500)
         ctx.add_tlc(r)
-        if vlib.run_tlc(ctx, "wire", "MalformedH2", "MalformedH2_defect_ContOffsetStuck.cfg", expect_ok=False)["ok"]:
-            raise vlib.Inconclusive("MalformedH2 model does not reject defect ContOffsetStuck")
-        binary = binary or vlib.go_build("c08")
+        for d in ("ContOffsetStuck", "SignedIndexCheck", "SignedStringLength", "TruncatedSizeUpdate"):
+            if run_tlc(ctx, "wire", "MalformedH2", "MalformedH2_defect_%s.cfg" % d, expect_ok=False)["ok"]:
+                raise vlib.Inconclusive("MalformedH2 model does not reject defect " + d)
         trace = os.path.join(ctx.tmp, "h2.ndjson")
         run_restartable(ctx, binary, "h2", cases, trace, ["-rand", "3000" if q else "100000"], timeout=1500)
-        evs = validate(ctx, "wire", "MalformedH2Trace", trace, "h2", h2_sig, ("h2", "hpack"))
-        ctx.cov["evaluations"] += sum(len(e["runs"]) for e in evs if e["ev"] in ("h2", "hpack"))
+        evs = validate(ctx, "wire", "MalformedH2Trace", trace, "h2", h2_sig, ("h2", "hpack", "hpint", "fval"))
+        ctx.cov["evaluations"] += sum(len(e["runs"]) for e in evs if e["ev"] in ("h2", "hpack", "hpint", "fval"))
         ctx.cov["evaluations"] += sum(3 * e["count"] for e in evs if e["ev"] == "randh2")
-        ctx.cov["distinct_nontrivial"] += sum(1 for e in evs if e["ev"] in ("h2", "hpack"))
+        ctx.cov["distinct_nontrivial"] += sum(1 for e in evs if e["ev"] in ("h2", "hpack", "hpint", "fval"))
+        ctx.sample({"part": "hpint", "event": next((e for e in evs if e["ev"] == "hpint" and e["class"] == "maxacc"), None)})
         ctx.sample({"part": "h2", "event": next((e for e in evs if e["ev"] == "h2" and len(e["frames"]) > 2), evs[0])})
         ctx.sample({"part": "hpack", "event": next((e for e in evs if e["ev"] == "hpack" and e["n"] > 3), None)})
 
     # ------------------------------------------------------------------ part 3: containment on a running MOSN
-    if "e2e" in only:
+    def part_e2e():
         menu = os.path.join(ctx.tmp, "menu.jsonl")
-        r = vlib.run_tlc(ctx, "server", "Containment", "Containment.cfg", cases_to=menu, workers=1, timeout=600)
+        r = run_tlc(ctx, "server", "Containment", "Containment.cfg", cases_to=menu, workers=1, timeout=600)
         ctx.add_tlc(r)
         for d in ("NoRecover", "SilentDecodeError", "SharedPoison", "LeakOnClose"):
-            if vlib.run_tlc(ctx, "server", "Containment", "Containment_defect_%s.cfg" % d, expect_ok=False)["ok"]:
+            if run_tlc(ctx, "server", "Containment", "Containment_defect_%s.cfg" % d, expect_ok=False)["ok"]:
                 raise vlib.Inconclusive("Containment model does not reject defect " + d)
-        binary = binary or vlib.go_build("c08")
         trace = os.path.join(ctx.tmp, "e2e.ndjson")
         # exit codes: 0 done, 7 bailed out because the proxy wedged (event in the trace), 2 = Go runtime died (panic in the proxy)
-        logp = vlib.run_driver(ctx, binary, ["-mode", "e2e", "-cases", menu, "-trace", trace], timeout=600, ok_codes=(0, 2, 7))
+        logp = run_driver(ctx, binary, ["-mode", "e2e", "-cases", menu, "-trace", trace], timeout=600, ok_codes=(0, 2, 7))
         logtxt = open(logp, errors="replace").read()
         evs = vlib.read_jsonl(trace) if os.path.exists(trace) else []
         if not any(e["ev"] in ("alive", "wedged") for e in evs):
@@ -166,6 +194,9 @@ def run(ctx):
             def e2e_sig(e, kind):
                 if e["ev"] == "seen":
                     return "C08:e2e:%s:%s:%s" % (e.get("proto"), e.get("name"), kind)
+                if e["ev"] == "alloc":
+                    fam = re.sub(r"^((?:upstream-)?(?:content-length|chunk-size))-.*$", r"\1", e.get("name", ""))
+                    return "C08:e2e:%s:%s:%s" % (e.get("proto"), fam, kind)
                 if e["ev"] == "gauge":
                     return "C08:e2e:%s:%s" % (e.get("listener"), kind)
                 if e["ev"] == "serve":
@@ -179,17 +210,37 @@ def run(ctx):
                 if e["ev"] == "note":
                     ctx.notes.append(e["what"])
 
+    def guarded_part(fn):
+        with LOCK:
+            return fn()
+    parts = [f for name, f in (("e2e", part_e2e), ("xdec", part_xdec), ("h2", part_h2)) if name in only]
+    with ThreadPoolExecutor(max_workers=3) as ex:
+        futs = [ex.submit(guarded_part, f) for f in parts]
+        errs = []
+        for f in futs:
+            try:
+                f.result()
+            except Exception as e:   # every part is waited for before the first failure is passed on
+                errs.append(e)
+    if errs:
+        raise errs[0]
+
     ctx.cov["rule"] = ("xdec: every <layout (10: bolt/boltv2/dubbo/dubbo-thrift/tars x request/response), length field, mutation "
-                       "(0,1,2,3,true-1,true+1,16 MiB,max), number of bytes supplied (every boundary of the layout, of the true and of "
+                       "(0,1,2,3,true-1,true+1,16 MiB, sign bit of the field's integer type -1/+0, 2^32 minus what the decoder adds -1/+0, max), number of bytes supplied (every boundary of the layout, of the true and of "
                        "the announced frame, +-1)> enumerated by TLC = one case; each case = 4 real Decode calls (memory behind the "
                        "supplied bytes: none/zeros/ones/continuation) + 15 matcher calls; rand: seeded random strings and random "
                        "corruptions of valid frames, 3 Decode calls each; h2: every <frame type, flags, stream 0/1, length field "
-                       "(true, +-1, 0..8, max read size, +1, 2^24-1), pad length, cut> and every HEADERS/CONTINUATION sequence of the "
+                       "(true, +-1, 0..8, 2^15/2^16/2^23 boundaries, max read size -1/+0/+1, 2^24-1), pad length (incl. 127/128/255), cut> and every HEADERS/CONTINUATION sequence of the "
                        "menu x cut = one case = 4 real ReadFrame calls; hpack: every sequence of <= 2 of 10 representations x every "
-                       "prefix = one case = 4 real Write+Close; e2e: every poison of the menu of Containment.tla (27: bolt, a panicking codec plug-in, dubbo-thrift, "
+                       "prefix = one case = 4 real Write+Close; hpint: every HPACK integer field (index of the 4 representations, name/value length plain and "
+                       "Huffman, table size update) x value class {0, max valid, +1, 2^31-1, 2^31, 2^32-1, 2^32, 2^62, 2^63-1, 2^63, 2^63+2^n-2, ten continuation "
+                       "bytes} x dynamic table {empty, 2 entries, full} x {bare decoder with/without string limit, server-side framer, client-side framer}; "
+                       "fval: WINDOW_UPDATE increments and SETTINGS values {0,1,2^31-1,2^31,2^32-1} on both framers; e2e: every poison of the menu of Containment.tla (66: bolt, a panicking codec plug-in, dubbo-thrift, "
                        "HTTP/1, HTTP/2; downstream and upstream side) on its own connection of a real MOSN next to probe connections")
     ctx.cov["exhaustive"] = True
     ctx.assumptions += ["decoders are called as the stream layer calls them (fresh buffer-pool context, IoBuffer over the received bytes)",
                         "allocation is measured with runtime/metrics around the call; bound 1 MiB + 16 bytes per supplied byte",
-                        "a decoder call that has not returned after 25 s or keeps growing the heap beyond 200 MB is a loop",
-                        "e2e: a peer that saw neither bytes nor a close for 8 s calls its connection silent; gauges get 10 s to settle"]
+                        "a decoder call that has not returned after 20 s or keeps growing the heap beyond 200 MB is a loop",
+                        "e2e: a peer that saw neither bytes nor a close for 8 s calls its connection silent; gauges get 10 s to settle",
+                        "e2e: announced HTTP/1 body sizes are sent one at a time; memory = what the whole process allocated meanwhile, bound 64 MiB; "
+                        "after one over-allocation the rest of that family (Content-Length / chunk size, each side) is not sent"]
